@@ -56,8 +56,11 @@ Val gen_val(Dec &d)
         break;
     }
     case xcm_attr_type_double: {
-        static const double D[] = {0.0, -0.0, 1.5, 1e308, -1e-308};
-        double x = d.ch(2) ? d.pick(D) : (double)tag / 7.0;
+        // (byte-exact: the two zeros differ, a NaN equals itself, two NaNs with different payloads differ)
+        static const uint64_t DB[] = {0x0000000000000000ull, 0x8000000000000000ull, 0x3ff8000000000000ull, 0x7fe1ccf385ebc8a0ull, 0x800000000000b8b8ull,
+                                      0x7ff8000000000000ull, 0x7ff8000000000001ull, 0xfff8000000000000ull, 0x7ff0000000000000ull};
+        double x = (double)tag / 7.0;
+        if (d.ch(2)) { uint64_t b = d.pick(DB); memcpy(&x, &b, 8); }
         v.bytes.assign((char *)&x, sizeof(x));
         break;
     }
@@ -358,6 +361,26 @@ public:
                 clone_pending[i] = true;
                 c.log("add_all %d -> %d", i, j);
             } else if (op < 17) { // equal
+                if (i != j && !models[i].empty() && d.ch(3) == 0) {
+                    // a near miss first: one key of map i goes into map j with one bit of its value
+                    // changed (the sign bit of a double: 0.0 / -0.0; the first byte of anything else)
+                    auto it = models[i].begin();
+                    std::advance(it, d.raw() % models[i].size());
+                    Val v = it->second;
+                    bool changed = false;
+                    if (v.type == xcm_attr_type_double) { v.bytes[7] ^= (char)0x80; changed = true; }
+                    else if (v.type == xcm_attr_type_bool) { v.bytes[0] ^= 1; changed = true; }
+                    else if (v.type == xcm_attr_type_str) { if (v.bytes.size() > 1) { v.bytes[0] = v.bytes[0] == 'q' ? 'r' : 'q'; changed = true; } }
+                    else if (!v.bytes.empty()) { v.bytes[0] ^= 1; changed = true; }
+                    if (changed) {
+                        xcm_attr_map_add(maps[j], it->first.c_str(), (enum xcm_attr_type)v.type, v.bytes.data(), v.bytes.size());
+                        if (models[j].count(it->first)) replaced = true;
+                        if (clone_pending[j]) cloned_then_mutated = true;
+                        models[j][it->first] = v;
+                        c.cls("map:near-miss-before-equal");
+                        c.log("near miss: '%s' of map %d into map %d with one bit changed", it->first.substr(0, 20).c_str(), i, j);
+                    }
+                }
                 bool eq = xcm_attr_map_equal(maps[i], maps[j]);
                 bool ref = models[i] == models[j];
                 if (eq != ref) o = failf("equal(%d,%d)=%d but the models are %s", i, j, (int)eq, ref ? "equal" : "different");
